@@ -1,5 +1,6 @@
 /- Driver handlers for the C06 correspondence streams. -/
 import Csvq.Model.Proto
+import Csvq.Model.Text
 namespace Csvq.Drive
 open Csvq Csvq.Proto
 
@@ -65,6 +66,14 @@ def c06 (cmd : String) (args : List String) : String :=
         | some t => t.toStr
         | none => "E"
     | _, _ => bad
+  | "sint", [h] =>
+    match parseHexX h with
+    | some b => showOpt toString (strToIntStrict b) ++ " " ++ (strTernary b).toStr
+    | none => bad
+  | "itext", [i] =>
+    match i.toInt? with
+    | some i => hex (decText i)
+    | none => bad
   | "prof", [v] =>
     match parseVal v with
     | some v => showProfile (profileOf v)
